@@ -111,7 +111,7 @@ func c07r1(c *Ctx) {
 func reservers(c *Ctx) []*types.Func {
 	locked := walletLockedField(c.P)
 	var out []*types.Func
-	for _, m := range c.P.MethodsOf("wallet", "SingleAddressWallet") {
+	for _, m := range c.P.PkgFuncs("wallet") { // (methods of the wallet, or of a reservations type it holds)
 		for _, n := range m.Graph().Nodes {
 			if n.AST == nil {
 				continue
@@ -262,8 +262,8 @@ func c07r3(c *Ctx) {
 
 // takeLoop is a loop that moves elements of a candidate slice into a result.
 type takeLoop struct {
-	stmt  ast.Stmt   // *ast.RangeStmt or *ast.ForStmt
-	head  *cfgx.Node // loop head node in the graph
+	stmt  ast.Stmt     // *ast.RangeStmt or *ast.ForStmt
+	head  *cfgx.Node   // loop head node in the graph
 	slice types.Object // root of the alias chain of the list taken from
 	own   types.Object // the variable a range loop ranges over (nil for other loops)
 }
@@ -310,6 +310,7 @@ func c07r4(c *Ctx) {
 		ir.Walk(f.Body, false, func(x ast.Node) {
 			var body *ast.BlockStmt
 			var elemVars = map[types.Object]types.Object{} // element var → slice
+			var indexed types.Object                       // the slice a counting loop subscripts
 			var stmt ast.Stmt
 			switch s := x.(type) {
 			case *ast.RangeStmt:
@@ -339,6 +340,9 @@ func c07r4(c *Ctx) {
 					if so := f.ObjOf(ix.X); so != nil && isElemSlice(so) {
 						if v := f.ObjOf(w.LHS); v != nil {
 							elemVars[v] = root(so)
+							if indexed == nil {
+								indexed = so
+							}
 						}
 					}
 				}
@@ -350,6 +354,8 @@ func c07r4(c *Ctx) {
 			var taken, own types.Object
 			if rs, ok := stmt.(*ast.RangeStmt); ok {
 				own = f.ObjOf(rs.X)
+			} else {
+				own = indexed
 			}
 			for _, call := range f.CallsIn(body, false) {
 				id, ok := call.Expr.Fun.(*ast.Ident)
@@ -419,6 +425,12 @@ func c07r4(c *Ctx) {
 				if len(start) == 0 {
 					continue
 				}
+				// the variables through which the second loop reaches the list (its own slice and what that was copied from)
+				chain2 := map[types.Object]bool{}
+				for o, k := l2.own, 0; o != nil && k < 10 && !chain2[o]; k++ {
+					chain2[o] = true
+					o = alias[o]
+				}
 				resliced := func(n *cfgx.Node) bool {
 					if n.AST == nil {
 						return false
@@ -429,7 +441,7 @@ func c07r4(c *Ctx) {
 					for _, w := range f.WritesIn(n.AST, false) {
 						lo := f.ObjOf(w.LHS)
 						// the list itself, or the copy of it that the second loop ranges over
-						if lo == nil || (lo != l1.slice && !(lo == l2.own && root(lo) == l1.slice)) {
+						if lo == nil || (lo != l1.slice && !(chain2[lo] && root(lo) == l1.slice)) {
 							continue
 						}
 						if _, isID := ast.Unparen(w.LHS).(*ast.Ident); !isID {
